@@ -721,6 +721,12 @@ Proof.
   rewrite take_drop. exact Hv.
 Qed.
 
+Lemma drop_drop {A} (l : list A) m n : drop n (drop m l) = drop (m + n) l.
+Proof.
+  unfold drop. revert l; induction m as [|m IH]; intros l; [reflexivity|].
+  destruct l as [|x l]; cbn; [destruct n; reflexivity|apply IH].
+Qed.
+
 (* trim_start removes a prefix made of whole characters *)
 Lemma trim_start_f_spec fuel s : valid_utf8 s = true ->
   exists n, trim_start_f fuel s = drop n s /\ (n <= length s)%nat /\ urun UA (take n s) = UA.
@@ -732,7 +738,7 @@ Proof.
     + destruct (ws_len_inv s k E) as (Hl & Hr & _).
       destruct (IH (drop (S k) s) (valid_drop_ws s k Hv E)) as (n & H1 & H2 & H3).
       rewrite length_drop in H2. exists (S k + n)%nat. split; [|split; [lia|]].
-      * rewrite H1. unfold drop. rewrite skipn_skipn. f_equal. lia.
+      * rewrite H1. apply drop_drop.
       * rewrite (take_split s (S k) (S k + n)) by lia. rewrite urun_app, Hr.
         replace (S k + n - S k)%nat with n by lia. exact H3.
 Qed.
@@ -791,25 +797,137 @@ Theorem hosts_hostname_props s : valid_utf8 s = true ->
   safe (hosts_hostname s) /\ forall h, hosts_hostname s = Ok (inl h) -> valid_utf8 h = true.
 Proof.
   intros Hv. unfold hosts_hostname. destruct (prefixb [c_BANG] s); [split; [exact I|discriminate]|].
-  assert (exists f2x, (match find_byte c_HASH s with
-            | Some h => pre <- slice_to s h ;; let t := trim pre in if null t then fail "Unsupported" else ret t
-            | None => ret s end) = Ok f2x /\ forall f2, f2x = inl f2 -> valid_utf8 f2 = true)
-    as (f2x & -> & Hf2).
-  { destruct (find_byte c_HASH s) as [h|] eqn:F.
-    - assert (G : good s h) by (eapply good_find; [|exact F]; ascii_lt).
-      rewrite slice_to_ok by exact G. cbn [rbind].
-      destruct (null (trim (take h s))).
-      + eexists. split; [reflexivity|]. discriminate.
-      + eexists. split; [reflexivity|]. intros f2 H; inversion H; subst.
-        apply valid_trim, valid_take; assumption.
-    - eexists. split; [reflexivity|]. intros f2 H; inversion H; subst. exact Hv. }
-  destruct f2x as [f2|e]; cbn [pbind]; [|split; [exact I|discriminate]].
-  pose proof (split_whitespace_valid f2 (Hf2 f2 eq_refl)) as Hall.
-  destruct (split_whitespace f2) as [|h1 [|h2 [|h3 rest]]]; cbn [pbind fail ret];
-    try (split; [exact I|discriminate]).
-  - inversion Hall; subst. destruct (str_eqb h1 (bs "localhost")); (split; [exact I|]); [discriminate|].
-    intros h H; inversion H; subst. assumption.
-  - inversion Hall as [|? ? _ Hall']; subst. inversion Hall'; subst.
-    destruct (str_eqb h2 (bs "localhost")); (split; [exact I|]); [discriminate|].
-    intros h H; inversion H; subst. assumption.
+  match goal with |- safe (pbind _ ?k) /\ _ => set (K := k) end.
+  assert (HK : forall f2, valid_utf8 f2 = true ->
+                 safe (K f2) /\ forall h, K f2 = Ok (inl h) -> valid_utf8 h = true).
+  { intros f2 Hf2. subst K. cbn beta.
+    pose proof (split_whitespace_valid f2 Hf2) as Hall.
+    destruct (split_whitespace f2) as [|h1 [|h2 [|h3 rest]]]; cbn [pbind fail ret];
+      try (split; [exact I|discriminate]).
+    - inversion Hall; subst. destruct (str_eqb h1 (bs "localhost")); (split; [exact I|]); [discriminate|].
+      intros h H; inversion H; subst. assumption.
+    - inversion Hall as [|? ? _ Hall']; subst. inversion Hall'; subst.
+      destruct (str_eqb h2 (bs "localhost")); (split; [exact I|]); [discriminate|].
+      intros h H; inversion H; subst. assumption. }
+  destruct (find_byte c_HASH s) as [h|] eqn:F.
+  - assert (G : good s h) by (eapply good_find; [|exact F]; ascii_lt).
+    rewrite slice_to_ok by exact G. cbn [rbind].
+    destruct (null (trim (take h s))); cbn [pbind fail ret].
+    + split; [exact I|discriminate].
+    + apply HK. apply valid_trim, valid_take; assumption.
+  - cbn [pbind ret]. apply HK. exact Hv.
+Qed.
+
+(* ------------------------------------------------------------------ scriptlet arguments *)
+Lemma cte_safe fuel rest i t c :
+  nth_error rest (i - t) = Some c -> c < 128 -> (t <= i)%nat ->
+  safe (count_trailing_escapes fuel rest i t).
+Proof.
+  revert t c; induction fuel as [|f IH]; intros t c Hn Hc Ht; [exact I|].
+  cbn [count_trailing_escapes]. destruct (Nat.ltb t i) eqn:E; [|exact I]. apply Nat.ltb_lt in E.
+  assert (G : good rest (i - t)) by (eapply good_ascii; eauto).
+  rewrite slice_to_ok by exact G. cbn [rbind].
+  destruct (suffixb [c_BSLASH] (take (i - t) rest)) eqn:Es; [|exact I].
+  apply suffixb1_nth in Es as [Es1 Es2]. destruct G as [G1 _].
+  rewrite length_take in Es2 by exact G1. rewrite nth_error_take in Es2 by lia.
+  apply IH with (c := c_BSLASH); [|ascii_lt|lia].
+  replace (i - S t)%nat with (i - t - 1)%nat by lia. exact Es2.
+Qed.
+
+Lemma inus_loop_props fuel s sep nae nt :
+  valid_utf8 s = true -> sep < 128 -> good s nae -> (length s - nae < fuel)%nat ->
+  safe (inus_loop fuel s sep nae nt) /\
+  forall k b, inus_loop fuel s sep nae nt = Ok (Some k, b) -> nth_error s k = Some sep.
+Proof.
+  intros Hv Hsep. revert nae nt; induction fuel as [|f IH]; intros nae nt G Hf; [lia|].
+  cbn [inus_loop]. destruct (Nat.ltb nae (length s)) eqn:E.
+  - apply Nat.ltb_lt in E. rewrite slice_from_ok by exact G. cbn [rbind].
+    destruct (find_byte sep (drop nae s)) as [i|] eqn:F; [|split; [exact I|discriminate]].
+    pose proof (find_byte_nth _ _ _ F) as Hn.
+    pose proof (cte_safe (S i) (drop nae s) i O sep) as Hc.
+    rewrite Nat.sub_0_r in Hc. specialize (Hc Hn Hsep (Nat.le_0_l _)).
+    destruct (count_trailing_escapes (S i) (drop nae s) i 0) as [t|w]; [|contradiction]. cbn [rbind].
+    rewrite nth_error_drop in Hn.
+    destruct (Nat.even t).
+    + split; [exact I|]. unfold inus_finish. intros k b H.
+      destruct (Nat.leb (length s) (nae + i)); inversion H; subst. exact Hn.
+    + apply IH.
+      * replace (nae + i + 1)%nat with (nae + S i)%nat by lia.
+        apply good_shift; [exact Hv|exact G|].
+        eapply good_find_next; [apply valid_drop; assumption|exact Hsep|exact F].
+      * lia.
+  - split; [exact I|]. unfold inus_finish. apply Nat.ltb_ge in E.
+    assert (Nat.leb (length s) nae = true) as -> by (apply Nat.leb_le; exact E). discriminate.
+Qed.
+
+Theorem inus_props s sep : valid_utf8 s = true -> sep < 128 ->
+  safe (index_next_unescaped_separator s sep) /\
+  forall k b, index_next_unescaped_separator s sep = Ok (Some k, b) -> nth_error s k = Some sep.
+Proof.
+  intros Hv Hsep. unfold index_next_unescaped_separator.
+  apply inus_loop_props; auto; [apply good_0|lia].
+Qed.
+
+Lemma skip_ws_spec args : valid_utf8 args = true ->
+  exists a', skip_ws args = Ok a' /\ valid_utf8 a' = true /\ (length a' <= length args)%nat.
+Proof.
+  intros Hv. unfold skip_ws. destruct (trim_start_spec args Hv) as [_ G].
+  destruct (Nat.ltb (ws_prefix_len args) (length args)).
+  - rewrite slice_from_ok by exact G. eexists. split; [reflexivity|]. split.
+    + apply valid_drop; assumption.
+    + rewrite length_drop. lia.
+  - exists args. auto.
+Qed.
+
+Lemma is_quote_ascii c : is_quote c = true -> c < 128.
+Proof. unfold is_quote. lia. Qed.
+
+Lemma psa_loop_safe fuel args acc :
+  valid_utf8 args = true -> (length args < fuel)%nat -> safe (psa_loop fuel args acc).
+Proof.
+  revert args acc; induction fuel as [|f IH]; intros args acc Hv Hf; [lia|].
+  cbn [psa_loop]. destruct (skip_ws_spec args Hv) as (a1 & -> & Hv1 & Hl1). cbn [rbind].
+  destruct a1 as [|qc r1] eqn:Ea1; [exact I|]. rewrite <- Ea1 in *.
+  assert (Hq0 : nth_error a1 0 = Some qc) by (rewrite Ea1; reflexivity).
+  assert (Hlen1 : (1 <= length a1)%nat) by (rewrite Ea1; cbn; lia).
+  destruct (is_quote qc) eqn:Eq.
+  - pose proof (is_quote_ascii _ Eq) as Hqa.
+    assert (G1 : good a1 1) by (eapply good_after_ascii; eauto).
+    rewrite slice_from_ok by exact G1. cbn [rbind].
+    pose proof (valid_drop _ _ Hv1 G1) as Hv2.
+    destruct (inus_props (drop 1 a1) qc Hv2 Hqa) as [Hs Hr].
+    destruct (index_next_unescaped_separator (drop 1 a1) qc) as [[oi nt]|w]; [|contradiction].
+    cbn [rbind fst snd]. destruct oi as [i|]; [|exact I].
+    pose proof (Hr i nt eq_refl) as Hn.
+    assert (Gi : good (drop 1 a1) i) by (eapply good_ascii; eauto).
+    assert (Gi1 : good (drop 1 a1) (S i)) by (eapply good_after_ascii; eauto).
+    rewrite slice_to_ok by exact Gi. cbn [rbind]. rewrite slice_from_ok by exact Gi1. cbn [rbind].
+    pose proof (valid_drop _ _ Hv2 Gi1) as Hv3.
+    destruct (skip_ws_spec _ Hv3) as (a3 & -> & Hv4 & Hl3). cbn [rbind].
+    rewrite !length_drop in Hl3.
+    destruct (prefixb [c_COMMA] a3) eqn:Ec.
+    + assert (G4 : good a3 1).
+      { eapply good_after_ascii with (c := c_COMMA); [exact Hv4| |ascii_lt].
+        eapply prefixb_nth; [exact Ec|reflexivity]. }
+      rewrite slice_from_ok by exact G4. cbn [rbind]. apply IH.
+      * apply valid_drop; assumption.
+      * rewrite length_drop. lia.
+    + destruct (negb (null a3)); [exact I|]. apply IH; [exact Hv4|lia].
+  - destruct (inus_props a1 c_COMMA Hv1 ltac:(ascii_lt)) as [Hs Hr].
+    destruct (index_next_unescaped_separator a1 c_COMMA) as [[oi nt]|w]; [|contradiction].
+    cbn [rbind fst snd]. destruct oi as [i|].
+    + pose proof (Hr i nt eq_refl) as Hn.
+      assert (Gi : good a1 i) by (eapply good_ascii; [exact Hn|ascii_lt]).
+      assert (Gi1 : good a1 (S i)) by (eapply good_after_ascii; [exact Hv1|exact Hn|ascii_lt]).
+      rewrite slice_to_ok by exact Gi. cbn [rbind]. rewrite slice_from_ok by exact Gi1. cbn [rbind].
+      apply IH; [apply valid_drop; assumption|rewrite length_drop; lia].
+    + rewrite slice_to_ok by apply good_len. cbn [rbind].
+      rewrite slice_from_ok by apply good_len. cbn [rbind].
+      apply IH; [apply valid_drop; [assumption|apply good_len]|rewrite length_drop; lia].
+Qed.
+
+Theorem parse_scriptlet_args_safe args : valid_utf8 args = true -> safe (parse_scriptlet_args args).
+Proof.
+  intros Hv. unfold parse_scriptlet_args. destruct (null (trim args)); [exact I|].
+  apply psa_loop_safe; [exact Hv|lia].
 Qed.
